@@ -83,7 +83,7 @@ Inductive expr :=
  | RawStr (s : string)                   (* 's' written by fmt.Sprintf inside a raw fragment: no escaping *)
  | StrV (s : string)                     (* sql.StringVal *)
  | IntV (z : Z)                          (* sql.IntVal *)
- | FloatV (s : string)                   (* sql.FloatVal: the %f text *)
+ | FloatV (s : string)                   (* sql.FloatVal: the text FormatFloat(v, 'f', -1, 64) *)
  | LOp (fn : lop) (cl : list expr)       (* sql.LogicalOp *)
  | InE (l : expr) (r : list expr)        (* sql.In *)
  | WRef (alias : string)                 (* sql.WithRef *)
